@@ -138,7 +138,9 @@ def make_wrapper(
             This means that those changes can be reverted from this point out.
             """
             self._configurable.commit()
-            object.__setattr__(self, "_reuse_pt", 0)
+            # committing doesn't change the settings, so cached evaluations stay
+            # valid; the generation must never go backwards (an entry cached at
+            # generation 0 before later changes would be taken for current again)
 
         def changes_count(self):
             """current commit point for the configurable"""
@@ -208,6 +210,7 @@ def make_wrapper(
                     entry_point = self.changes_count()
                     try:
                         list(map(self._configurable.remove, vals))
+                        object.__setattr__(self, "_reuse_pt", self._reuse_pt + 1)
                         return True
                     except Unchangable:
                         self.rollback(entry_point)
